@@ -51,6 +51,8 @@ def inputs(t, tier):
         for ms in itertools.product(gen.all_masks(n), repeat=3):
             yield (f"mask3/n{n}", gen.rle_block(t, n, list(ms), chans=[1, 0, 9]), {})
     yield ("mem", gen.rle_block(t, 5, [(False, True, False, True, False)]), {"mem": "f8"})
+    if thorough or t != R.T_FORCE3D:
+        yield ("big/n70000", gen.rle_block(t, 70000, [gen.big_mask()]), {})
 
 
 def _items(sp):
